@@ -23,6 +23,7 @@ type bucketTable struct {
 	name string
 	base uint64 // value e -> Float64frombits(base + e)
 	dur  func(e int) time.Duration
+	ints bool // value e -> float64(e): value and duration sets with the same numbers (in seconds)
 }
 
 func (t *bucketTable) buckets(s absSpec) tally.Buckets {
@@ -30,6 +31,9 @@ func (t *bucketTable) buckets(s absSpec) tally.Buckets {
 		b := make(tally.ValueBuckets, len(s.Elems))
 		for i, e := range s.Elems {
 			b[i] = math.Float64frombits(t.base + uint64(e))
+			if t.ints {
+				b[i] = float64(e)
+			}
 		}
 		return b
 	}
@@ -46,6 +50,9 @@ func (t *bucketTable) valTok(f float64) int {
 	}
 	if f == -math.MaxFloat64 {
 		return -(1 << 20)
+	}
+	if t.ints {
+		return int(f)
 	}
 	return int(int64(math.Float64bits(f)) - int64(t.base))
 }
@@ -68,8 +75,9 @@ func (t *bucketTable) durTok(d time.Duration) int {
 var c20Pool = []absSpec{{"value", []int{1, 4}}, {"value", []int{4, 1}}, {"value", []int{2, 3}}, {"duration", []int{1, 4}}, {"value", []int{5}}, {"duration", []int{2, 3}}, {"duration", []int{3, 2}}, {"value", []int{1, 1, 3}}}
 
 var bucketTables = []*bucketTable{
-	{"subnormal+ns", 0, func(e int) time.Duration { return time.Duration(e) }},                                      // value and duration identities collide too
-	{"around1.0+ms", math.Float64bits(1.0), func(e int) time.Duration { return time.Duration(e) * time.Millisecond }}, // same-kind collisions
+	{"subnormal+ns", 0, func(e int) time.Duration { return time.Duration(e) }, false},                                        // value and duration identities collide too
+	{"around1.0+ms", math.Float64bits(1.0), func(e int) time.Duration { return time.Duration(e) * time.Millisecond }, false}, // same-kind collisions
+	{"integers+seconds", 0, func(e int) time.Duration { return time.Duration(e) * time.Second }, true},                       // a value set and a duration set with the same numbers
 }
 
 // histBounds creates a histogram with the spec on scope s (cached reporter rec) and returns the bounds it really uses
@@ -149,7 +157,9 @@ func init() {
 							return M{"st": "ok", "v": out}
 						}
 						got := conv(tally.LinearValueBuckets(float64(start)*sc, float64(width)*sc, n))
-						m := must(func() interface{} { return conv(tally.MustMakeLinearValueBuckets(float64(start)*sc, float64(width)*sc, n), nil) })
+						m := must(func() interface{} {
+							return conv(tally.MustMakeLinearValueBuckets(float64(start)*sc, float64(width)*sc, n), nil)
+						})
 						tr.Emit(M{"e": "linear", "kind": "value", "scale": fmt.Sprint(sc), "start": start, "width": width, "n": n, "got": got, "must": m})
 						evals++
 					}
@@ -245,7 +255,9 @@ func init() {
 						return M{"st": "ok", "v": out}
 					}
 					got := conv(tally.ExponentialDurationBuckets(time.Duration(start), factor, n))
-					m := must(func() interface{} { return conv(tally.MustMakeExponentialDurationBuckets(time.Duration(start), factor, n), nil) })
+					m := must(func() interface{} {
+						return conv(tally.MustMakeExponentialDurationBuckets(time.Duration(start), factor, n), nil)
+					})
 					tr.Emit(M{"e": "exp", "kind": "duration", "start": start, "p": p, "q": q, "n": n, "got": got, "must": m})
 					evals++
 				}
@@ -273,7 +285,7 @@ func init() {
 			if !thorough && si%3 != int(cm.seed%3) {
 				continue
 			}
-			t := bucketTables[si%len(bucketTables)]
+			t := bucketTables[(si/3)%len(bucketTables)]
 			rc := &recCached{}
 			root, _ := tally.VerifNewRootScope(tally.ScopeOptions{CachedReporter: rc, OmitCardinalityMetrics: true}, 0, 1+uint(si%3))
 			for i, pi := range seq {
